@@ -45,12 +45,14 @@ namespace vf
     {
         std::string name = "up";
         std::string prop = "C05"; // property blamed for release-shape / double-release / LIFO problems
+        std::string canary_prop = "C01"; // property blamed when bytes next to a block are overwritten
+        std::size_t budget = std::size_t(-1); // refuses (std::bad_alloc) whatever would bring the live bytes above it
         std::map<char*, probe_rec> live;
         std::vector<char*>         order; // live blocks in acquisition order
         long          attempts = 0, served = 0, releases = 0;
         long          fail_at = -1; // index of the attempt that fails (0-based), -1: never
         int           fail_kind = 0; // 0: std::bad_alloc, 1: foonathan out_of_memory
-        long          fired = 0;
+        long          fired = 0, refused_by_budget = 0;
         bool          check_lifo  = false;
         bool          exact_align = true;
         std::uint64_t next_id     = 1;
@@ -113,6 +115,11 @@ namespace vf
                 align = 16;
             }
             std::size_t n = count * size;
+            if (budget != std::size_t(-1) && bytes_live + n > budget)
+            {
+                ++refused_by_budget;
+                throw std::bad_alloc();
+            }
             if (count != 0 && n / count != size)
             {
                 // overflowing request: a real allocator would fail
@@ -218,7 +225,7 @@ namespace vf
                         fmt("upstream %s: block #%llu released while a later acquired block is still outstanding", name.c_str(),
                             (unsigned long long)r.id));
             if (!canaries_ok(r))
-                problem("C01", "upstream-canary",
+                problem(canary_prop, "upstream-canary",
                         fmt("upstream %s: bytes directly outside block #%llu (%zu bytes) were overwritten", name.c_str(),
                             (unsigned long long)r.id, r.bytes));
             order.erase(std::find(order.begin(), order.end(), r.p));
@@ -237,7 +244,7 @@ namespace vf
         {
             for (auto& kv : live)
                 if (!canaries_ok(kv.second))
-                    problem("C01", "upstream-canary",
+                    problem(canary_prop, "upstream-canary",
                             fmt("upstream %s: bytes directly outside block #%llu (%zu bytes) were overwritten", name.c_str(),
                                 (unsigned long long)kv.second.id, kv.second.bytes));
         }
